@@ -54,18 +54,12 @@ def run(ck: Checker):
         ck.ob('C08-2', p.prod, loop.iter, not probs, '; '.join(sorted(set(probs))) if probs else f'elements flow only to the worker function / preprocessor and the blocking `{p.q}.put`')
     # -------------------------------------------------------------------- C08-3
     check_private_pool(ck, 'C08-3')
+    check_pool_size(ck, 'C08-3')
+    check_pool_release_semantics(ck, 'C08-3')
     for rel, cname, itname in ((STREAMER, 'Parmapper', '__iter__'), (STREAMER_ASYNC, 'AsyncParmapper', '__aiter__')):
         cls = ck.repo.cls(rel, cname)
         f = cls.method(itname)
         ex = [n for n in walk_shallow_func(f.node) if isinstance(n, ast.Call) and (call_dotted(n) or '').endswith('PoolExecutor')]
-        ck.need(len(ex) >= 1, f'{f.key}: executor constructors not found')
-        probs = []
-        for e in ex:
-            mw = e.args[0] if e.args else kwarg(e, 'max_workers')
-            lf = linear_form(mw, f) if mw is not None else None
-            if lf is None or lf[:3] != (1, 0, 'concurrency'):
-                probs.append(f'`{call_dotted(e)}` is created with max_workers `{norm_text(mw) if mw is not None else None}` = {lf[:3] if lf else "?"}, not 1*concurrency')
-        ck.ob('C08-3', f, ex[0], not probs, '; '.join(probs) if probs else f'{len(ex)} executors, each with max_workers = concurrency')
         # the pool is released WAITING for the calls still running (context manager / shutdown(wait=True)):
         # otherwise calls of an abandoned iteration overlap those of the next one and `concurrency` is exceeded
         sc_ = Scope(f)
@@ -82,6 +76,16 @@ def run(ck: Checker):
         lf = linear_form(cap, f) if cap is not None else None
         ok = lf is not None and lf[:3] == (2, 0, 'concurrency')
         ck.ob('C08-3', f, calls[0], ok, 'fifo capacity = 2*concurrency' if ok else f'fifo capacity `{norm_text(cap) if cap is not None else "default"}` = {lf[:3] if lf else "?"}, not 2*concurrency')
+    # the async-worker parmappers hand a capacity to the same fifo functions: 2*concurrency as well (a capacity that can
+    # reach -1 makes the hand-off queue `maxsize=0`, which both queue kinds read as unbounded)
+    for rel, cname, itname in ((STREAMER, 'ParmapperAsync', '__iter__'), (STREAMER_ASYNC, 'AsyncParmapperAsync', '__aiter__')):
+        f = ck.repo.cls(rel, cname).method(itname)
+        calls = [n for n in walk_deep_func(f.node) if isinstance(n, ast.Call) and (dotted(n.func) or '') in ('fifo_stream', 'async_fifo_stream')]
+        ck.need(calls, f'{f.key}: fifo call not found')
+        cap = kwarg(calls[0], 'capacity')
+        lf = linear_form(cap, f) if cap is not None else None
+        ok = lf is not None and lf[:3] == (2, 0, 'concurrency')
+        ck.ob('C08-3', f, calls[0], ok, 'fifo capacity = 2*concurrency' if ok else f'fifo capacity `{norm_text(cap) if cap is not None else "default"}` = {lf[:3] if lf else "not one linear form of concurrency (several definitions, or a conditional)"}, not 2*concurrency: for a small explicit `concurrency` the hand-off queue is created with maxsize <= 0, i.e. unbounded — the whole source is pulled at once')
     # -------------------------------------------------------------------- C08-4
     for rel, q in ((STREAMER, 'ParmapperAsync.__iter__.func'), (STREAMER_ASYNC, 'AsyncParmapperAsync.__aiter__.func')):
         f = ck.repo.func(rel, q)
@@ -188,3 +192,63 @@ def check_queue_bound(ck: Checker, rid: str, p):
                 if a * lo + b < 1:
                     probs.append(f'queue size {a}*{param} + {b} can be 0 (= unbounded) when {param} = {lo}')
     ck.ob(rid, p.q_ctor_owner, ctor, not probs, '; '.join(probs) if probs else f'`{norm_text(ctor)}`: size = {lf[0]}*{lf[2]} + {lf[1]} ≥ 1')
+
+
+def check_pool_size(ck: Checker, rid: str):
+    """The pool of a parmapper has exactly `concurrency` workers, whatever the input: the bound on concurrent calls
+    (C08), and -- a size computed from the input is 0 for an empty one, and the pool constructor raises ValueError where
+    an empty stream is the answer (C01)."""
+    from .common import STREAMER, STREAMER_ASYNC
+
+    for rel, cname, itname in ((STREAMER, 'Parmapper', '__iter__'), (STREAMER_ASYNC, 'AsyncParmapper', '__aiter__')):
+        cls = ck.repo.cls(rel, cname)
+        f = cls.method(itname)
+        ex = [n for n in walk_shallow_func(f.node) if isinstance(n, ast.Call) and (call_dotted(n) or '').endswith('PoolExecutor')]
+        ck.need(len(ex) >= 1, f'{f.key}: executor constructors not found')
+        probs = []
+        for e in ex:
+            mw = e.args[0] if e.args else kwarg(e, 'max_workers')
+            lf = linear_form(mw, f) if mw is not None else None
+            if lf is None or lf[:3] != (1, 0, 'concurrency'):
+                probs.append(f'`{call_dotted(e)}` is created with max_workers `{norm_text(mw) if mw is not None else None}` = {lf[:3] if lf else "?"}, not 1*concurrency')
+        ck.ob(rid, f, ex[0], not probs, '; '.join(probs) if probs else f'{len(ex)} executors, each with max_workers = concurrency')
+
+
+def check_pool_release_semantics(ck: Checker, rid: str):
+    """`with executor:` around the iteration means "wait for the calls still running": the pool classes of this package keep
+    the standard `__exit__` / `shutdown`, or every shutdown they issue waits (wait omitted or True).  A pool that is left
+    without waiting when the body raised -- an early stop is GeneratorExit thrown into the body -- returns control while
+    calls of this iteration are still running: threads outlive the closed iterator (C05) and overlap the next one (C08)."""
+    from .common import FUTURES
+
+    mod = ck.repo.module(FUTURES)
+    for cname in ('ThreadPoolExecutor', 'ProcessPoolExecutor'):
+        cls = mod.cls(cname)
+        probs = []
+        site = cls.node
+        for st in cls.node.body:
+            fn = None
+            if isinstance(st, (ast.FunctionDef, ast.AsyncFunctionDef)) and st.name in ('__exit__', 'shutdown'):
+                fn = st
+            elif isinstance(st, ast.Assign) and any(isinstance(t, ast.Name) and t.id in ('__exit__', 'shutdown') for t in st.targets):
+                tgt = dotted(st.value)
+                fn = mod.functions[tgt].node if tgt in mod.functions else None
+                if fn is None:
+                    probs.append(f'L{st.lineno}: `{norm_text(st)[:60]}` replaces the release of the pool by something this analysis cannot read')
+                    site = st
+                    continue
+            if fn is None:
+                continue
+            for c in ast.walk(fn):
+                if not isinstance(c, ast.Call):
+                    continue
+                me = method_of(c)[1]
+                if me != 'shutdown':
+                    continue
+                w = kwarg(c, 'wait') if kwarg(c, 'wait') is not None else (c.args[0] if c.args else None)
+                if w is not None and not (isinstance(w, ast.Constant) and w.value is True):
+                    if isinstance(w, ast.Name) and fn.name == 'shutdown' and w.id in [a.arg for a in fn.args.args + fn.args.kwonlyargs]:
+                        continue  # the caller's own choice handed through
+                    probs.append(f'L{c.lineno}: `{norm_text(c)[:70]}` in `{cname}.{st.name if hasattr(st, "name") else "__exit__"}`: the pool is left without waiting for the calls still running when `{norm_text(w)}` is false — leaving a `with executor:` block on an early stop or a failure returns while calls of this iteration are running')
+                    site = c
+        ck.ob(rid, cls.methods()[0] if cls.methods() else ck.repo.func(FUTURES, '_loud_thread_function'), site, not probs, '; '.join(probs) if probs else f'`{cname}` keeps the standard context-manager exit (shutdown(wait=True))')
